@@ -251,7 +251,7 @@ func VH_Worker(a []int) {
 	// a call failed and the same write was not retried successfully later in this reconcile
 	failedCall := false
 	for i, op := range w.ops {
-		if !op.failed {
+		if !op.failed || op.applied {
 			continue
 		}
 		retried := false
@@ -278,9 +278,17 @@ func VH_Worker(a []int) {
 		}
 	}
 	sym.Assert(requeued != forgot, "C16", "a reconcile is either put back with backoff or forgotten")
+	anyFailed := false
+	for _, op := range w.ops {
+		if op.failed {
+			anyFailed = true
+		}
+	}
 	if failedCall {
 		sym.Cover("reconcile with a failing API call")
 		sym.Assert(requeued, "C16", "a failed reconcile is put back with backoff")
+	} else if anyFailed {
+		sym.Cover("reconcile with a failure that was retried or hid an applied write")
 	} else {
 		sym.Cover("reconcile without failures")
 		sym.Assert(forgot, "C16", "a successful reconcile clears its backoff")
